@@ -2,7 +2,12 @@ from common import COMMON_TB
 
 CONFIG = {
     "lean_modules": ["SA.Props.C05"],
-    "level_text": "Theorems C05_verify_on_unless_insecure / C05_expected_name / C05_client_cert_required / "
+    "level_text": "Host forms outside host:port with a plain host: C05_auth_sound_any_host (for EVERY authority string, every "
+                  "verifying kind: established and not insecure => the name the kind derives is non-empty and the certificate "
+                  "chains, is valid and matches it), C05_port_only_refused (tcp://:9000, udp://:9000, ws://:8080, wss, tcp+tls: "
+                  "no name, no verified session, for every oracle), C05_host_form_names (the derived names and the reference "
+                  "oracle's reading for port-only, [::1], zone, unbracketed IPv6, upper case, trailing dot). "
+                  "Theorems C05_verify_on_unless_insecure / C05_expected_name / C05_client_cert_required / "
                   "C05_auth_sound / C05_auth_sound_server / C05_auth_complete / C05_udp_secret_symmetric / "
                   "C05_udp_fail_closed / C05_udp_admits_same_secret, and for histories of attempts through one "
                   "certificate manager C05_history_independent / C05_history_config / C05_history_auth_sound / "
@@ -37,7 +42,9 @@ CONFIG = {
             "flags, 3 kinds), all pairs key x password, key file x key, CA file x CA, cert file x cert, plus 1500 "
             "(quick) / 20000 (thorough) random combinations, comparing certificate count, both pools by CA identity, "
             "InsecureSkipVerify, ClientAuth, ServerName, the remaining verification knobs (Time, VerifyPeerCertificate, VerifyConnection, "
-            "GetConfigForClient), error class or panic; the ServerName the real startTls "
+            "GetConfigForClient), error class or panic; `startcfg`: the real startTls with a VERIFYING configuration for 80+ host "
+            "strings (every host form as host:port / bare / host:, port-only, colons, brackets) - ServerName written, "
+            "InsecureSkipVerify afterwards, outcome; the ServerName the real startTls "
             "carries into crypto/tls for 49+ host strings (host:port, IPv6 brackets, malformed); the real "
             "ConnectPacket/StartupPacket with absent / empty / 12 passwords.  authmatrix: per carrier {pipe, tcp, "
             "tcp+tls, stdin+tls (+udp, wss, ws thorough)} x host x server certificate {good, nameonly, wronghost, untrusted, "
@@ -45,13 +52,19 @@ CONFIG = {
             "x require-client-cert (boundary server classes with client {none, good, exp1m}, boundary client classes with server {good, fresh}), full with "
             "both CAs configured, CA-absent variants sampled 1/4 (quick) or full (thorough); a cell is established "
             "iff 16 bytes make the round trip to a TCP echo target behind a server channel; refused cells must "
-            "deliver 0 bytes.  tlshist: histories of 2-6 attempts {pipe, tcp, tcp+tls, stdin+tls (+wss thorough)} x host x "
+            "deliver 0 bytes; host forms (token =<hex of the host part as written in the URL>): port-only, LOCALHOST, [::1], "
+            "[0:0:0:0:0:0:0:1], [::ffff:127.0.0.1], 0.0.0.0, user@localhost, user:secret@127.0.0.1, user@ through the real "
+            "Connect of tcp and tcp+tls x {good, untrusted, nameonly, wronghost} x insecure (server bound where the form dials: "
+            "127.0.0.1, ::1 or every address), port-only / [::1] / LOCALHOST through udp, ws, wss x {good, untrusted} "
+            "(thorough: every form without userinfo), all of them plus localhost. LocalHost. server.test. SERVER.TEST "
+            "127.0.0.1. ::1 [::1%lo] [fe80::1%eth0] [] through the pipe carrier.  tlshist: histories of 2-6 attempts {pipe, tcp, tcp+tls, stdin+tls (+wss thorough)} x host x "
             "server {dead, good, nameonly, iponly, wronghost, untrusted, expired, exp1m, exp1s, notyet, fresh} through ONE cert.ClientConfig, as a "
             "fail-over walk (one Upstreams.Connect over the list) and as connect/disconnect/connect; every ordered pair "
             "of 24 (quick) / 52 (thorough) attempt kinds in both modes plus 150 / 1500 random longer histories with "
             "random options; per attempt established|refused|skipped and the ServerName / InsecureSkipVerify of the "
             "config the attempt handed to crypto/tls are compared with the model; monitor = the property per attempt "
-            "for THIS upstream's host name.  non-trivial = the config loaded / the session was established; distinct = distinct op line",
+            "for THIS upstream's host name; host forms (6 through tcp / tcp+tls, 6 through pipe, x {good, untrusted}) alone, "
+            "after stdin+tls, after a dead upstream in a walk, before a plainly named upstream.  non-trivial = the config loaded / the session was established; distinct = distinct op line",
     "trusted_base": COMMON_TB + [
         "model SA.Model.TlsConfig hand-written; tied by per-field comparison with the real tls.Config, per-cell comparison of the matrix and per-attempt comparison of the histories",
         "go/extract/x_c05.go shape recognition (guard polarity, ServerName derivations, pbkdf2 argument lists, new-object-per-call shape of GetTlsConfig)",
@@ -59,7 +72,8 @@ CONFIG = {
     ],
     "assumptions": [
         "crypto/tls verifies chain, validity and ServerName iff InsecureSkipVerify is false, and demands a client certificate chaining to ClientCAs iff ClientAuth = RequireAndVerifyClientCert",
-        "upstream addresses are host:port with a non-bracketed host and numeric port (IPv6 literals: checked by evaluation and correspondence, not by the general theorem)",
+        "C05_expected_name / C05_auth_sound / C05_auth_complete: upstream addresses are host:port with a non-bracketed non-empty host and numeric port; every other form is covered by C05_auth_sound_any_host (sound for all strings) and by evaluation + correspondence",
+        "crypto/tls refuses a verifying handshake without a ServerName (part of the clientAccepts contract, exercised by the port-only cells)",
         "TLS 1.3 between client and server (a StartTLS upstream's Connect returns before the server has judged the client certificate: modelled in the fail-over walk)",
         "the KDF does not collide on the two passwords compared (C05_udp_admits_same_secret)",
     ],
